@@ -28,7 +28,11 @@ RULE = (
     "battery model with n callback calls, batt_life is run with an exception injected at "
     "call k for EVERY k = 0..n-1 (five exception types, two of them BaseException-only), and with the battery state making "
     "the solver fail at step k; afterwards - returned or raised - params() must show the "
-    "battery's original vo and rs and the snapshot must be unchanged. Non-trivial: "
+    "battery's original vo and rs and the snapshot must be unchanged (the battery is named "
+    "by component name or by its rail name). Stream 'interleaved_edits': a generated edit "
+    "history is run twice, once with analysis calls inserted between the edits at drawn "
+    "positions and once without; the two final systems must give identical reports (an "
+    "analysis leaves no hidden state that a later edit could expose). Non-trivial: "
     "interleave: >= 4 distinct analyses incl. a diagram and batt_life; batt_faults: every k "
     "enumerated; distinct by (spec hash, call sequence / model)."
 )
@@ -146,6 +150,8 @@ def do_call(sys, spec, call, arg, tmp):
             src = S.sources(spec)
             batt = src[arg % len(src)]
             vo = S.node_map(spec)[batt]["params"]["vo"]
+            if S.node_map(spec)[batt]["rail"] and arg % 2:
+                batt = S.node_map(spec)[batt]["rail"]  # a source may be named by its rail
             pf, df, _s = battery_model(0.05, vo if vo != 0 else 3.7, 0.01, 3 + arg % 4)
             tags = {"run": arg}
             passed.append(("tags", tags, copy.deepcopy(tags)))
@@ -209,13 +215,16 @@ def body_batt(case, stats):
     src = S.sources(spec)
     batt = src[bi % len(src)]
     node = S.node_map(spec)[batt]
+    battname = batt
+    if node["rail"] and case.get("by_rail"):
+        batt = node["rail"]  # batt_life accepts the rail name of the source
     vo = node["params"]["vo"]
     if vo == 0.0:
         vo = 3.7
     vbat = abs(vo) * 0.9 if vo > 0 else vo * 0.9
     sys = B.build(spec)
     base = M.snapshot(sys)
-    orig = source_row(sys, batt)
+    orig = source_row(sys, battname)
     cutoff = 0.1 * abs(vo) if vo > 0 else -1e9
     # a clean run first: how many callback calls does the model receive?
     pf, df, st_ = battery_model(0.02, vbat, 0.05, steps)
@@ -231,7 +240,7 @@ def body_batt(case, stats):
     stats.cls("clean_run:" + clean)
 
     def after(what):
-        got = source_row(sys, batt)
+        got = source_row(sys, battname)
         if got != orig:
             raise Fail("battery_not_restored." + what.split(" ")[0],
                        "after batt_life ({}) the battery {!r} shows vo={!r}, rs={!r}; before "
@@ -276,6 +285,59 @@ def body_batt(case, stats):
                           "callback_calls_enumerated": n, **S.summarize(spec)})
 
 
+ANALYSES = ["solve", "rail_rep", "params", "limits", "phases", "tree", "save", "make_diag",
+            "make_hdiag", "plot_interp"]
+
+
+@st.composite
+def edit_cases(draw):
+    from vlib.props.c12 import histories
+    ops = draw(histories())
+    n = len(ops)
+    marks = draw(st.lists(st.tuples(st.integers(1, max(1, n - 1)), st.sampled_from(ANALYSES),
+                                    st.integers(0, 30)).map(list), min_size=1, max_size=8))
+    return {"ops": ops, "marks": marks}
+
+
+def body_edits(case, stats):
+    """Analysis calls made between edits leave no trace: the same edit history with and
+    without interleaved analyses ends in systems with identical reports."""
+    from vlib.runner import Stats
+
+    ops, marks = case["ops"], case["marks"]
+    plain = M.replay_ops(ops, set(), Stats())
+    d = M.Driver(set(), Stats())
+    first = ops[0]
+    d.start(first["comp"], first["group"], first["rail"], first.get("warn_error", False))
+    with tempfile.TemporaryDirectory(prefix="vc17_") as tmp:
+        for i, op in enumerate(ops[1:], start=1):
+            for (pos, call, arg) in marks:
+                if pos == i:
+                    spec_now = {"name": "Sys", "phases": d.model["phases"],
+                                "nodes": M.topo_nodes(d.model)}
+                    try:
+                        do_call(d.sys, spec_now, call, arg, tmp)
+                    except (ValueError, RuntimeError):
+                        pass
+                    stats.cls("interleaved:" + call)
+            if d.step(op) == "abort":
+                break
+    if not plain.in_sync() or not d.in_sync():
+        stats.cls("history_out_of_model")
+        return
+    ra = M.run_reports(d.sys)
+    try:
+        M.compare_with_rebuilt(ra, d.model, plain.sys, "the same edit history without the "
+                               "interleaved analysis calls", pre="interleave.")
+    except Fail as f:
+        raise Fail(f.sig, f.msg + " | analyses at " + str(marks) + " | history " + str(
+            [M.op_text(o) for o in ops][-6:]))
+    stats.cls("histories_compared")
+    if len(ops) >= 6 and len(marks) >= 2:
+        stats.nontriv(jhash([ops, marks]), sample={"marks": marks,
+                                                   "history": [M.op_text(o) for o in ops][:10]})
+
+
 def _reduce_i(case):
     for i in range(len(case["calls"])):
         if len(case["calls"]) > 1:
@@ -314,10 +376,12 @@ def streams(tier, avoid):
     batt = st.fixed_dictionaries({
         "spec": st.one_of(G.systems(G.Opts(**common)), G.systems(G.Opts(phases=True, **common))),
         "steps": st.integers(2, 9), "exc": st.sampled_from(sorted(EXC)),
-        "battery": st.integers(0, 5)})
+        "battery": st.integers(0, 5), "by_rail": st.booleans()})
     return [
         Stream("interleave", body_interleave, strategy=inter,
-               n={"quick": 120, "thorough": 900}, reduce=_reduce_i),
-        Stream("batt_faults", body_batt, strategy=batt, n={"quick": 30, "thorough": 300},
+               n={"quick": 70, "thorough": 900}, reduce=_reduce_i),
+        Stream("batt_faults", body_batt, strategy=batt, n={"quick": 20, "thorough": 300},
                reduce=_reduce_b),
+        Stream("interleaved_edits", body_edits, strategy=edit_cases(),
+               n={"quick": 80, "thorough": 1000}),
     ]
